@@ -43,7 +43,7 @@ Definition cT (p1 : nat) (st1 : status) : bool := is_ready st1 && inl p1 [1;2].
 Definition cross (p0 : nat) (st0 : status) (p1 : nat) (st1 : status) : bool :=
   Bool.eqb (is_ns st1) (p0 <=? 2) && negb (mM p0 st0 && cM p1 st1) && negb (mT p0 st0 && cT p1 st1) &&
   implb (6 <=? p0) (2 <=? p1) && implb (25 <=? p0) (is_done st1) && implb (14 <=? p1) (17 <=? p0) &&
-  implb (is_ready st1 && inl p1 [12;13]) (p0 <=? 15 ) .
+  implb (is_ready st1 && inl p1 [12]) (p0 <=? 15) .
 Definition ownT (p0 : nat) (st0 : status) (p1 : nat) (st1 : status) : option tid :=
   if mT p0 st0 then Some 0 else if cT p1 st1 then Some 1 else None.
 Definition prodok (pp : nat) (stp : status) : bool :=
